@@ -822,6 +822,7 @@ def run(ctx):
     ctx.rule("R-9.6", "a wire-fencing extension whose success flag is discarded is covered by a length test that rejects every truncated extension (linear arithmetic on lengths)", floor=1)
     ctx.rule("R-9.7", "positional role agreement in the move functions: (start, end, middle, cross), (success, status), (shooting_point, idx, dek), (n_frames, new_segment), (accept, paths, status) are unpacked / passed at the callee's positions", floor=20)
     ctx.rule("R-9.8", "the tests that decide whether a path end still needs extension compare the frame's order parameter with elements of the ensemble's own interfaces (not a cap / sub-ensemble / modified copy)", floor=2)
+    ctx.rule("R-9.9", "no `for` variable of the move / path code is read after its loop has ended", floor=15)
     ctx.rule("R-9.1", "every return of a move function pairs flag True with status 'ACC' and flag False with a non-'ACC' status", floor=30)
     ctx.rule("R-9.2", "the job's path is replaced only under status == 'ACC'; treat_output numbers only new paths", floor=4)
     ctx.rule("R-9.3", "frames reach engine sinks only as fresh copies; input paths are never extended in place", floor=13)
@@ -835,11 +836,14 @@ def run(ctx):
     ctx.attempt(r95, ctx)
     ctx.attempt(r96, ctx)
     ctx.attempt(r98, ctx)
+    from .shared import stale_loop_variable
+    ctx.attempt(stale_loop_variable, ctx, "R-9.9", [TIS, PATH], None, " (the move would test / store another frame or ensemble)")
     from .shared import role_agreement
     ctx.attempt(role_agreement, ctx, "R-9.7", [TIS, PATH], None, " (the move would test / return the wrong component)")
 
 
 VARIANTS = [
+    B("c09-stale-interface-after-loop", TIS, "            cv.append(1.0 if intf_i <= path_max else 0.0)\n    cv.append(0.0)", "            pass\n    cv.append(1.0 if intf_i <= path_max else 0.0)\n    cv.append(0.0)", "R-9.9", control=True),
     B("c09-extender-cap-bound", TIS, '    interfaces = ens_set["interfaces"]\n    # ensemble[\'system\'] = source_seg.phasepoints[0].copy()', '    interfaces = list(ens_set["interfaces"])\n    if ens_set["mc_move"] == "wf":\n        interfaces[2] = ens_set["tis_set"].get("interface_cap", interfaces[2])\n    # ensemble[\'system\'] = source_seg.phasepoints[0].copy()', "R-9.8", control=True, why="seeded C09_c"),
     B("c09-extender-middle-bound", TIS, "    sh_pt = trial_path.phasepoints[-1].copy()\n    if interfaces[0] <= sh_pt.order[0] < interfaces[-1]:", "    sh_pt = trial_path.phasepoints[-1].copy()\n    wf_b = [interfaces[0], ens_set[\"tis_set\"].get(\"interface_cap\", interfaces[-1])]\n    if wf_b[0] <= sh_pt.order[0] < wf_b[-1]:", "R-9.8"),
     K("c09-keep-extender-direct-bounds", TIS, "    if interfaces[0] <= sh_pt.order[0] < interfaces[-1]:", "    if ens_set[\"interfaces\"][0] <= sh_pt.order[0] < ens_set[\"interfaces\"][-1]:", count=2),
